@@ -36,6 +36,25 @@ func (oracleC13) Invariant(x *OCtx, v *View, m *Mon) []Violation {
 				fmt.Sprintf("owner %s records %s, its providers record %s in total", nameOf(o), got, sum)))
 		}
 	}
+	// "the providers it owns" is only defined if every provider has one owner: all of its bindings and the ownership
+	// record name the same one
+	for _, p := range universe() {
+		var first []byte
+		if raw, ok := rawLookup(v.Owner, st.GetOwnerKey(p)); ok {
+			first = bytesVal(raw)
+		}
+		for _, br := range v.Bindings {
+			if !bytes.Equal(br.B.Provider, p) || len(br.B.Owner) == 0 {
+				continue
+			}
+			if first == nil {
+				first = br.B.Owner
+			} else if !bytes.Equal(first, br.B.Owner) {
+				out = append(out, viol("C13", "every-provider-has-one-owner", "state", nameOf(p),
+					fmt.Sprintf("provider %s is owned by %s and, by its binding to %s, by %s", nameOf(p), nameOf(first), br.B.ServiceName, nameOf(br.B.Owner))))
+			}
+		}
+	}
 	for _, k := range EarningsOrphans(v) {
 		out = append(out, viol("C13", "no-earnings-record-without-subject", "state", "orphan", "earnings record under key "+k+" belongs to no provider/owner of the scenario"))
 	}
